@@ -139,39 +139,66 @@ fn build_msg(index: u32, it: &Item, trs: &[Tr]) -> DltMessage {
     base_msg(index, tr.ecu, tr.lc, apid, noar, p)
 }
 
-/// projection of the public state JSON: (transfer index by key or 0, kind) per entry, in order of occurrence
-fn project(state: &Value, trs: &[Tr]) -> Vec<(usize, &'static str)> {
+/// one entry of the reported state tree: the list it stands in ("top" = by occurrence, else the label of the grouping item),
+/// its position there, the transfer its tooltip names (by key; 0 = none of the case's transfers), its state kind and ITS OWN
+/// command context (what a user interface would hand to apply_command when the user saves from this entry)
+#[derive(Clone)]
+struct Entry {
+    list: String,
+    pos: usize,
+    t: usize,
+    kind: &'static str,
+    ctx: Value,
+}
+
+fn entry_of(it: &Value, list: &str, pos: usize, trs: &[Tr]) -> Entry {
+    let tip = it["tooltip"].as_str().unwrap_or("");
+    // "{ecu}, LC id={lc}, serial #{serial}, '...'"
+    let mut t = 0;
+    let parts: Vec<&str> = tip.splitn(4, ", ").collect();
+    if parts.len() >= 3 {
+        let ecu = parts[0];
+        let lc = parts[1].strip_prefix("LC id=").and_then(|s| s.parse::<u32>().ok());
+        let serial = parts[2].strip_prefix("serial #").and_then(|s| s.parse::<u32>().ok());
+        for (i, tr) in trs.iter().enumerate() {
+            if tr.ecu == ecu && Some(tr.lc) == lc && Some(tr.serial) == serial {
+                t = i + 1;
+            }
+        }
+    }
+    let label = it["label"].as_str().unwrap_or("");
+    let kind = if it["iconPath"].as_str() == Some("file") {
+        "complete"
+    } else if label.starts_with("Incomplete file transfer '") {
+        "started"
+    } else if label.starts_with("Incomplete file transfer. Missing FLST") {
+        "missing"
+    } else if label.starts_with("Incomplete file transfer. Missed package") {
+        "incomplete"
+    } else {
+        "unknown"
+    };
+    Entry { list: list.to_string(), pos, t, kind, ctx: it["cmdCtx"].clone() }
+}
+
+/// projection of the public state JSON: EVERY entry of EVERY list of the tree (top level = by occurrence, "Sorted by name",
+/// any other grouping item with children, recursively)
+fn project_list(items: &[Value], list: &str, trs: &[Tr], out: &mut Vec<Entry>) {
+    let mut pos = 0;
+    for it in items {
+        if let Some(children) = it["children"].as_array() {
+            let name = it["label"].as_str().unwrap_or("group").to_string();
+            project_list(children, &name, trs, out);
+        } else {
+            out.push(entry_of(it, list, pos, trs));
+            pos += 1;
+        }
+    }
+}
+fn project(state: &Value, trs: &[Tr]) -> Vec<Entry> {
     let mut out = Vec::new();
     if let Some(items) = state["treeItems"].as_array() {
-        for it in items.iter().skip(1) {
-            let tip = it["tooltip"].as_str().unwrap_or("");
-            // "{ecu}, LC id={lc}, serial #{serial}, '...'"
-            let mut t = 0;
-            let parts: Vec<&str> = tip.splitn(4, ", ").collect();
-            if parts.len() >= 3 {
-                let ecu = parts[0];
-                let lc = parts[1].strip_prefix("LC id=").and_then(|s| s.parse::<u32>().ok());
-                let serial = parts[2].strip_prefix("serial #").and_then(|s| s.parse::<u32>().ok());
-                for (i, tr) in trs.iter().enumerate() {
-                    if tr.ecu == ecu && Some(tr.lc) == lc && Some(tr.serial) == serial {
-                        t = i + 1;
-                    }
-                }
-            }
-            let label = it["label"].as_str().unwrap_or("");
-            let kind = if it["iconPath"].as_str() == Some("file") {
-                "complete"
-            } else if label.starts_with("Incomplete file transfer '") {
-                "started"
-            } else if label.starts_with("Incomplete file transfer. Missing FLST") {
-                "missing"
-            } else if label.starts_with("Incomplete file transfer. Missed package") {
-                "incomplete"
-            } else {
-                "unknown"
-            };
-            out.push((t, kind));
-        }
+        project_list(items, "top", trs, &mut out);
     }
     out
 }
@@ -195,6 +222,8 @@ struct Obs {
     /// final auto-save directory: (base id of the name, transfer whose original bytes the file has / 0)
     dir: Vec<(usize, usize)>,
     envs: Vec<Value>,
+    /// list name -> (transfer named by the entry, idx of its save context or -1)
+    report: BTreeMap<String, Vec<(usize, i64)>>,
 }
 
 struct Dirs {
@@ -225,6 +254,12 @@ fn name_for(class: &'static str, t: usize, case_dir: &Path) -> String {
         "abs" => format!("{}/outside/y{}.bin", case_dir.display(), t),
         "deep" => format!("a/../../z{}.bin", t),
         // transfers sharing ONE base name: different directory parts / identical full names / absolute vs climbing
+        // chosen alphabetical rank (equal rank = equal name) / reverse of the order of occurrence / all names equal
+        "ranked1" => "a.bin".to_string(),
+        "ranked2" => "m.bin".to_string(),
+        "ranked3" => "z.bin".to_string(),
+        "rev" => format!("{}_rev.bin", ["z", "y", "x", "w"][(t - 1) % 4]),
+        "dupname" => "dup.bin".to_string(),
         "shared_sub" => format!("d{}/same.bin", t),
         "shared_same" => "same.bin".to_string(),
         "shared_mix" => if t % 2 == 1 { format!("{}/outside/same.bin", case_dir.display()) } else { "../same.bin".to_string() },
@@ -238,6 +273,11 @@ fn base_name(class: &'static str, t: usize, serial: u32) -> String {
         "dotdot" => format!("x{}.bin", t),
         "abs" => format!("y{}.bin", t),
         "deep" => format!("z{}.bin", t),
+        "ranked1" => "a.bin".to_string(),
+        "ranked2" => "m.bin".to_string(),
+        "ranked3" => "z.bin".to_string(),
+        "rev" => format!("{}_rev.bin", ["z", "y", "x", "w"][(t - 1) % 4]),
+        "dupname" => "dup.bin".to_string(),
         "shared_sub" | "shared_same" | "shared_mix" => "same.bin".to_string(),
         _ => format!("<invalid_filename serial {}>", serial),
     }
@@ -312,7 +352,7 @@ fn run_case(dirs: &Dirs, case: u64, cfg: &Cfg, trs: &mut Vec<Tr>, wire: &[Item],
         v
     };
     let trs_ro: &Vec<Tr> = trs;
-    let mut last_entries: Vec<(usize, &'static str)> = Vec::new();
+    let mut last_entries: Vec<Entry> = Vec::new();
     let res = catch(std::panic::AssertUnwindSafe(|| {
         let mut evs = Vec::new();
         let mut c = serde_json::Map::new();
@@ -328,7 +368,7 @@ fn run_case(dirs: &Dirs, case: u64, cfg: &Cfg, trs: &mut Vec<Tr>, wire: &[Item],
         }
         let mut plugin = FileTransferPlugin::from_json(&c).expect("plugin config");
         let state = plugin.state();
-        let mut entries: Vec<(usize, &'static str)> = Vec::new();
+        let mut entries: Vec<Entry> = Vec::new();
         for (i, it) in wire.iter().enumerate() {
             let mut fwd = true;
             if it.k == "ENV" {
@@ -343,23 +383,32 @@ fn run_case(dirs: &Dirs, case: u64, cfg: &Cfg, trs: &mut Vec<Tr>, wire: &[Item],
                 fwd = plugin.process_msg(&mut m);
             }
             entries = project(&state.read().unwrap().value, trs_ro);
-            let kinds: Vec<Vec<&str>> = (1..=trs_ro.len()).map(|t| entries.iter().filter(|e| e.0 == t).map(|e| e.1).collect()).collect();
-            evs.push(json!({"ev":"msg","i":i + 1,"fwd":fwd,"kinds":kinds,"other_entries":entries.iter().filter(|e| e.0 == 0).count(),
+            // (the kinds of all entries naming the transfer, in every list)
+            let kinds: Vec<Vec<&str>> = (1..=trs_ro.len()).map(|t| entries.iter().filter(|e| e.t == t).map(|e| e.kind).collect()).collect();
+            evs.push(json!({"ev":"msg","i":i + 1,"fwd":fwd,"kinds":kinds,"other_entries":entries.iter().filter(|e| e.t == 0).count(),
                 "dir": list_dir(cfg.auto)}));
         }
         plugin.sync_all();
-        // save every state entry through the command interface
+        // save through EVERY entry of EVERY list of the state tree, with the entry's own command context (as a user interface does);
+        // entries without a save context (not complete / saving not allowed): top-level ones are tried with their index
         let mut saves = vec![false; trs_ro.len()];
+        let mut bad = vec![false; trs_ro.len()];
         {
             let st = state.read().unwrap();
-            for (e, (t, _kind)) in entries.iter().enumerate() {
-                if *t == 0 {
+            for (e, en) in entries.iter().enumerate() {
+                if en.t == 0 {
                     continue;
                 }
+                let (via, ctx) = if en.ctx.is_object() {
+                    ("cmdctx", en.ctx.clone())
+                } else if en.list == "top" {
+                    ("index", json!({"save": {"idx": en.pos}}))
+                } else {
+                    continue;
+                };
                 let target = dirs.cmd.join(format!("e{}.bin", e));
                 let _ = std::fs::remove_file(&target);
                 let params = json!({"saveAs": target.to_str().unwrap()});
-                let ctx = json!({"save": {"idx": e}});
                 let ret = match st.apply_command {
                     Some(f) => f(&st.internal_data, "save", params.as_object(), ctx.as_object()),
                     None => false,
@@ -367,17 +416,25 @@ fn run_case(dirs: &Dirs, case: u64, cfg: &Cfg, trs: &mut Vec<Tr>, wire: &[Item],
                 let bytes = std::fs::read(&target).ok();
                 let ok = ret && bytes.is_some();
                 let b = bytes.unwrap_or_default();
-                let eq = ok && b == trs_ro[*t - 1].data;
+                // the original of the transfer THIS ENTRY names
+                let eq = ok && b == trs_ro[en.t - 1].data;
                 if ok && eq {
-                    saves[*t - 1] = true;
+                    saves[en.t - 1] = true;
                 }
-                evs.push(json!({"ev":"saved","t":t,"entry":e,"ok":ok,"ret":ret,"eq":eq,"len":b.len(),"hash":hash31(&b)}));
+                if ok && !eq {
+                    bad[en.t - 1] = true;
+                }
+                evs.push(json!({"ev":"saved","t":en.t,"list":en.list,"entry":en.pos,"kind":en.kind,"via":via,"ok":ok,"ret":ret,"eq":eq,
+                    "len":b.len(),"hash":hash31(&b),"idx":ctx["save"]["idx"]}));
                 let _ = std::fs::remove_file(&target);
             }
         }
+        for t in 0..saves.len() {
+            saves[t] = saves[t] && !bad[t];
+        }
         (evs, entries, saves)
     }));
-    let mut obs = Obs { kinds: vec!["none".to_string(); trs.len()], saves: vec![false; trs.len()], dir: vec![], envs };
+    let mut obs = Obs { kinds: vec!["none".to_string(); trs.len()], saves: vec![false; trs.len()], dir: vec![], envs, report: BTreeMap::new() };
     if cfg.auto {
         let mut fs = Vec::new();
         walk(&save_dir, &mut fs);
@@ -421,10 +478,13 @@ fn run_case(dirs: &Dirs, case: u64, cfg: &Cfg, trs: &mut Vec<Tr>, wire: &[Item],
             Ok(evs)
         }
     };
-    for (t, k) in &last_entries {
-        if *t > 0 {
-            obs.kinds[*t - 1] = k.to_string();
+    for en in &last_entries {
+        if en.t > 0 && en.list == "top" {
+            obs.kinds[en.t - 1] = en.kind.to_string();
         }
+        // the report itself: per list the transfer named and the index its save context carries (-1 = none)
+        let idx = en.ctx["save"]["idx"].as_i64().unwrap_or(-1);
+        obs.report.entry(en.list.clone()).or_default().push((en.t, idx));
     }
     if cfg.auto {
         let _ = std::fs::remove_dir_all(&case_dir);
@@ -541,7 +601,19 @@ fn main() {
                 let last = sh["last"].as_u64().unwrap() as usize * unit;
                 let mut lens = vec![bs; n];
                 lens[n - 1] = last;
-                let class = if shared { ["shared_sub", "shared_same", "shared_mix"][(idx % 3) as usize] } else { NAME_CLASSES[((idx / 2) as usize + ti * 2) % NAME_CLASSES.len()] };
+                let ranked = scn["names"].as_bool().unwrap_or(false);
+                let class = if shared {
+                    ["shared_sub", "shared_same", "shared_mix"][(idx % 3) as usize]
+                } else if ranked {
+                    // the model chose the alphabetical rank of every name
+                    ["ranked1", "ranked2", "ranked3"][scn["rank"][ti].as_u64().unwrap() as usize - 1]
+                } else if !cfg.auto && idx % 5 == 1 {
+                    "rev"
+                } else if !cfg.auto && idx % 5 == 2 {
+                    "dupname"
+                } else {
+                    NAME_CLASSES[((idx / 2) as usize + ti * 2) % NAME_CLASSES.len()]
+                };
                 let pre = !auto_scn && cfg.auto && r % 32 == 15 && (ti as u64 + idx / 16) % 2 == 0;
                 let mut tr = make_tr(&mut rng, lens, bs, class, pre, keys_for(idx / 3, ti));
                 if auto_scn {
@@ -581,6 +653,14 @@ fn main() {
             }
             if shapes.len() > 1 { bump!("two_transfers"); }
             if shared { bump!("shared_base_name"); }
+            if scn["names"].as_bool().unwrap_or(false) {
+                bump!("names_ranked_by_model");
+                let rk: Vec<u64> = scn["rank"].as_array().unwrap().iter().map(|v| v.as_u64().unwrap()).collect();
+                let occ: Vec<u64> = scn["by_occ"].as_array().unwrap().iter().map(|e| e["label"].as_u64().unwrap()).collect();
+                let byn: Vec<u64> = scn["by_name"].as_array().unwrap().iter().map(|e| e["label"].as_u64().unwrap()).collect();
+                if occ != byn { bump!("name_order_differs_from_occurrence"); }
+                if rk.iter().any(|a| rk.iter().filter(|b| *b == a).count() > 1) { bump!("duplicate_names"); }
+            }
             if wire.iter().any(|i| i.k == "ENV") { bump!("file_appears_in_auto_save_dir"); }
             if wire.iter().any(|i| i.t == 0) { bump!("with_unrelated_message"); }
             bump!(format!("cfg_{}", if cfg.auto { if cfg.allow_save { "allow_save+auto_save" } else { "auto_save_only" } } else { "allow_save" }));
@@ -599,11 +679,23 @@ fn main() {
             } else {
                 None
             };
-            let same = res.is_ok() && obs.kinds == pk && (!base_cfg || obs.saves == ps) && pd.as_ref().map(|v| *v == obs.dir).unwrap_or(true);
+            // ... and on the state report itself where the model predicts it: per list the transfers named, in order, and for complete
+            // transfers the index their save context carries (0-based in the plugin)
+            let mut report_same = true;
+            if scn["names"].as_bool().unwrap_or(false) && cfg.allow_save {
+                for (list, key) in [("top", "by_occ"), ("Sorted by name", "by_name")] {
+                    let predicted: Vec<(usize, i64)> = scn[key].as_array().unwrap().iter().map(|e| (e["label"].as_u64().unwrap() as usize,
+                        if e["complete"].as_bool().unwrap() { e["idx"].as_i64().unwrap() - 1 } else { -1 })).collect();
+                    if obs.report.get(list) != Some(&predicted) {
+                        report_same = false;
+                    }
+                }
+            }
+            let same = res.is_ok() && obs.kinds == pk && (!base_cfg || obs.saves == ps) && pd.as_ref().map(|v| *v == obs.dir).unwrap_or(true) && report_same;
             if !same {
                 drift += 1;
                 if drift_samples.len() < 3 {
-                    drift_samples.push(json!({"scenario": scn, "observed_kinds": obs.kinds, "observed_saves": obs.saves, "observed_dir": obs.dir}));
+                    drift_samples.push(json!({"scenario": scn, "observed_kinds": obs.kinds, "observed_saves": obs.saves, "observed_dir": obs.dir, "observed_report": obs.report}));
                 }
             }
             if !contract_ok { pred_not_ok += 1; }
